@@ -9,6 +9,7 @@ CONSTANTS
   XaPool <- XaPoolDef
   TgtPool <- TgtPoolDef
   WPool <- WPoolDef
+  UncPool <- UncPoolDef
   MaxDK = 60
   Mode = "all"
   Depth = 3
@@ -17,4 +18,5 @@ PROPERTY QueriesArePure
 PROPERTY FrameOK
 PROPERTY AdaptedBackgroundIsOne
 PROPERTY AdaptedSystemIsOne
+PROPERTY EpsilonFromRegistrationTime
 CHECK_DEADLOCK FALSE
